@@ -15,7 +15,7 @@ def add (xs : List α) (x : α) : List α := xs ++ [x]
 
 /-- positions `[0, size]` -/
 def addAt (xs : List α) (x : α) (i : Nat) : Stat × List α :=
-  if i ≤ xs.length then (.ok, xs.take i ++ x :: xs.drop i) else (.errOutOfRange, xs)
+  if i ≤ xs.length then (.ok, xs.insertIdx i x) else (.errOutOfRange, xs)
 
 /-- positions `[0, size)`, out = the replaced element -/
 def replaceAt (xs : List α) (x : α) (i : Nat) : Stat × Option α × List α :=
